@@ -50,6 +50,7 @@ func c14CSSChild(args []string) int {
 	pool = append(pool, "repeat(3, 1px)", "repeat(3000000000, 1px)", "repeat(99999999999999999999, 1px)", "calc(1px + 2px)", "calc(99999999999999999999px * 99999999999999999999)", "minmax(1px, 2px)", "fit-content(10px)", "var(--x)",
 		"99999999999999999999", "99999999999999999999px", "1e999", "-99999999999999999999%", strings.Repeat("9", 400), "steps(99999999999999999999, end)", "rgb(99999999999,1,1)", "span 99999999999999999999", "hue-rotate(99999999999999999999)", "matrix(99999999999999999999,2,3,4,5,6)")
 	pool = append(pool, "", " ", "inset", "inset 1px", ",", "/", "(", ")", "url(", "\\", "-", ".", "#", "1px 1px", "a,b")
+	pool = append(pool, "\"", "'", "\"\"", "''", "\" \"", "arial, \"", "\"a", "a\"", "[", "]", "{", "}", "!", "@", "%", "+", "*", ":", ";")
 	second := pool
 	if ctx.Quick() {
 		second = nil
